@@ -343,4 +343,436 @@ theorem parseProg_sound : ∀ (n : Nat) {ts : List Tok} {p : Prog},
         · simp at h
     · simp at h
 
+
+/-! ## completeness -/
+
+/-- the next token cannot continue a literal list, a function chain, an annotation-less
+declaration, a bare outbound or a literal item -/
+def okNext : List Tok → Bool
+  | .lparen :: _ | .colon :: _ | .lbrace :: _ | .comma :: _ | .lbrack :: _ | .andand :: _ => false
+  | _ => true
+
+def notColon : List Tok → Bool
+  | .colon :: _ => false
+  | _ => true
+
+def notComma : List Tok → Bool
+  | .comma :: _ => false
+  | _ => true
+
+theorem CParam.toks_length_pos (p : CParam) : 1 ≤ p.toks.length := by
+  unfold CParam.toks; split <;> simp
+
+theorem parseParam_complete (p : CParam) (r : List Tok) (hr : notColon r = true) :
+    parseParam (p.toks ++ r) = .ok (p, r) := by
+  obtain ⟨key, v⟩ := p
+  cases key with
+  | some k => simp [CParam.toks, parseParam]
+  | none =>
+    cases v with
+    | nonId s => simp [CParam.toks, Lit.tok, parseParam, litOfTok]
+    | quote q s => simp [CParam.toks, Lit.tok, parseParam, litOfTok]
+    | id s =>
+      rcases r with _ | ⟨t, r'⟩
+      · simp [CParam.toks, Lit.tok, parseParam, litOfTok]
+      · cases t <;> simp_all [CParam.toks, Lit.tok, parseParam, litOfTok, notColon]
+
+theorem paramsTail_cons (q : CParam) (qs : List CParam) :
+    paramsTail (q :: qs) = .comma :: (q.toks ++ paramsTail qs) := by
+  simp [paramsTail, List.flatMap_cons]
+
+theorem parseParams_complete : ∀ (ps : List CParam) (p : CParam) (r : List Tok) (n : Nat),
+    (p.toks ++ paramsTail ps).length < n → notColon r = true → notComma r = true →
+    parseParams n (p.toks ++ paramsTail ps ++ r) = .ok (p :: ps, r) := by
+  intro ps
+  induction ps with
+  | nil =>
+    intro p r n hn hc hm
+    cases n with
+    | zero => simp at hn
+    | succ n =>
+      unfold parseParams
+      simp only [paramsTail, List.flatMap_nil, List.append_nil]
+      rw [parseParam_complete p r hc]
+      rcases r with _ | ⟨t, r'⟩
+      · rfl
+      · cases t <;> simp_all [notComma]
+  | cons q qs ih =>
+    intro p r n hn hc hm
+    cases n with
+    | zero => simp at hn
+    | succ n =>
+      unfold parseParams
+      rw [paramsTail_cons, List.append_assoc, parseParam_complete p _ (by simp [notColon])]
+      simp only [List.cons_append, List.append_assoc]
+      have hlen : (q.toks ++ paramsTail qs).length < n := by
+        have := CParam.toks_length_pos p
+        simp [paramsTail_cons] at hn ⊢; omega
+      have := ih q r n hlen hc hm
+      simp only [List.append_assoc] at this
+      rw [this]
+
+theorem startsLit_param (p : CParam) (r : List Tok) : startsLit (p.toks ++ r) = true := by
+  obtain ⟨key, v⟩ := p
+  cases key <;> cases v <;> simp [CParam.toks, Lit.tok, startsLit, litOfTok]
+
+theorem parseOptParams_complete (ps : List CParam) (close : Tok) (r : List Tok) (n : Nat)
+    (hn : (paramsToks ps).length < n) (hclose : close = .rparen ∨ close = .rbrack) :
+    parseOptParams n close (paramsToks ps ++ close :: r) = .ok (ps, r) := by
+  unfold parseOptParams
+  cases ps with
+  | nil =>
+    have : startsLit (close :: r) = false := by
+      rcases hclose with rfl | rfl <;> simp [startsLit, litOfTok]
+    simp [paramsToks, this]
+  | cons p ps =>
+    simp only [paramsToks] at hn ⊢
+    simp only [List.append_assoc, startsLit_param, ↓reduceIte]
+    have hc : notColon (close :: r) = true := by rcases hclose with rfl | rfl <;> simp [notColon]
+    have hm : notComma (close :: r) = true := by rcases hclose with rfl | rfl <;> simp [notComma]
+    have := parseParams_complete ps p (close :: r) n hn hc hm
+    simp only [List.append_assoc] at this
+    rw [this]
+    simp
+
+theorem CFn.toks_length (f : CFn) : (paramsToks f.params).length + 3 ≤ f.toks.length := by
+  unfold CFn.toks; split <;> simp <;> omega
+
+theorem parseFn_complete (f : CFn) (r : List Tok) (n : Nat) (hn : f.toks.length ≤ n + 2) :
+    parseFn n (f.toks ++ r) = .ok (f, r) := by
+  have hl := f.toks_length
+  obtain ⟨neg, name, params⟩ := f
+  have h := parseOptParams_complete params .rparen r n (by simp only at hl; omega) (Or.inl rfl)
+  cases neg
+  · simp only [CFn.toks, Bool.false_eq_true, if_false, List.nil_append, List.cons_append, List.append_assoc,
+      List.singleton_append]
+    unfold parseFn
+    simp only [h]
+  · simp only [CFn.toks, if_true, List.cons_append, List.append_assoc, List.singleton_append, List.nil_append]
+    unfold parseFn
+    simp only [h]
+
+theorem fnsTail_cons (f : CFn) (fs : List CFn) : fnsTail (f :: fs) = .andand :: (f.toks ++ fnsTail fs) := by
+  simp [fnsTail, List.flatMap_cons]
+
+def notAnd : List Tok → Bool
+  | .andand :: _ => false
+  | _ => true
+
+theorem parseFnsTail_complete : ∀ (fs : List CFn) (r : List Tok) (n : Nat),
+    (fnsTail fs).length < n → notAnd r = true →
+    parseFnsTail n (fnsTail fs ++ r) = .ok (fs, r) := by
+  intro fs
+  induction fs with
+  | nil =>
+    intro r n hn hr
+    cases n with
+    | zero => simp at hn
+    | succ n =>
+      unfold parseFnsTail
+      rcases r with _ | ⟨t, r'⟩
+      · simp [fnsTail]
+      · cases t <;> simp_all [fnsTail, notAnd]
+  | cons f fs ih =>
+    intro r n hn hr
+    cases n with
+    | zero => simp at hn
+    | succ n =>
+      unfold parseFnsTail
+      rw [fnsTail_cons] at hn ⊢
+      simp only [List.cons_append, List.append_assoc]
+      have hf : f.toks.length ≤ n + 2 := by simp at hn; omega
+      rw [parseFn_complete f _ n hf]
+      have hlen : (fnsTail fs).length < n := by
+        have := f.toks_length
+        simp at hn; omega
+      simp only [ih r n hlen hr]
+
+theorem litsTail_cons (l : Lit) (ls : List Lit) : litsTail (l :: ls) = .comma :: l.tok :: litsTail ls := by
+  simp [litsTail, List.flatMap_cons]
+
+theorem parseLitsTail_complete : ∀ (ls : List Lit) (r : List Tok) (n : Nat),
+    (litsTail ls).length < n → notComma r = true →
+    parseLitsTail n (litsTail ls ++ r) = .ok (ls, r) := by
+  intro ls
+  induction ls with
+  | nil =>
+    intro r n hn hr
+    cases n with
+    | zero => simp at hn
+    | succ n =>
+      unfold parseLitsTail
+      rcases r with _ | ⟨t, r'⟩
+      · simp [litsTail]
+      · cases t <;> simp_all [litsTail, notComma]
+  | cons l ls ih =>
+    intro r n hn hr
+    cases n with
+    | zero => simp at hn
+    | succ n =>
+      unfold parseLitsTail
+      rw [litsTail_cons] at hn ⊢
+      simp only [List.cons_append, litOfTok_tok]
+      have hlen : (litsTail ls).length < n := by simp at hn; omega
+      simp only [ih r n hlen hr]
+
+def notLbrack : List Tok → Bool
+  | .lbrack :: _ => false
+  | _ => true
+
+theorem parseAnn_complete (a : Option (List CParam)) (r : List Tok) (n : Nat)
+    (hn : (annToks a).length < n + 2) (hr : notLbrack r = true) :
+    parseAnn n (annToks a ++ r) = .ok (a, r) := by
+  cases a with
+  | none =>
+    unfold parseAnn
+    rcases r with _ | ⟨t, r'⟩
+    · simp [annToks]
+    · cases t <;> simp_all [annToks, notLbrack]
+  | some ps =>
+    have : (paramsToks ps).length < n := by simp [annToks] at hn; omega
+    simp only [annToks, List.cons_append, List.append_assoc, List.nil_append, parseAnn,
+      parseOptParams_complete ps .rbrack r n this (Or.inr rfl)]
+
+theorem okNext_notAnd {r : List Tok} (h : okNext r = true) : notAnd r = true := by
+  rcases r with _ | ⟨t, r'⟩
+  · rfl
+  · cases t <;> simp_all [okNext, notAnd]
+
+theorem okNext_notComma {r : List Tok} (h : okNext r = true) : notComma r = true := by
+  rcases r with _ | ⟨t, r'⟩
+  · rfl
+  · cases t <;> simp_all [okNext, notComma]
+
+theorem okNext_notLbrack {r : List Tok} (h : okNext r = true) : notLbrack r = true := by
+  rcases r with _ | ⟨t, r'⟩
+  · rfl
+  · cases t <;> simp_all [okNext, notLbrack]
+
+theorem startsFn_fn (f : CFn) (r : List Tok) : startsFn (f.toks ++ r) = true := by
+  obtain ⟨neg, name, params⟩ := f
+  cases neg <;> simp [CFn.toks, startsFn]
+
+theorem annToks_append_notAnd (a : Option (List CParam)) {r : List Tok} (h : okNext r = true) :
+    notAnd (annToks a ++ r) = true := by
+  cases a with
+  | none => simpa [annToks] using okNext_notAnd h
+  | some ps => simp [annToks, notAnd]
+
+theorem annToks_append_notComma (a : Option (List CParam)) {r : List Tok} (h : okNext r = true) :
+    notComma (annToks a ++ r) = true := by
+  cases a with
+  | none => simpa [annToks] using okNext_notComma h
+  | some ps => simp [annToks, notComma]
+
+/-- a literal followed by a literal tail, an annotation and an admissible context never looks
+like the start of a function prototype -/
+theorem startsFn_lits (a : Lit) (ls : List Lit) (ann : Option (List CParam)) {r : List Tok}
+    (h : okNext r = true) : startsFn (a.tok :: (litsTail ls ++ (annToks ann ++ r))) = false := by
+  cases a with
+  | nonId s => simp [Lit.tok, startsFn]
+  | quote q s => simp [Lit.tok, startsFn]
+  | id s =>
+    cases ls with
+    | cons l ls => simp [Lit.tok, startsFn, litsTail_cons]
+    | nil =>
+      cases ann with
+      | some ps => simp [Lit.tok, startsFn, litsTail, annToks]
+      | none =>
+        rcases r with _ | ⟨t, r'⟩
+        · simp [Lit.tok, startsFn, litsTail, annToks]
+        · cases t <;> simp_all [Lit.tok, startsFn, litsTail, annToks, okNext]
+
+theorem parseDeclBody_complete (d : CDecl) (r : List Tok) (n : Nat)
+    (hn : (d.val.toks ++ annToks d.ann).length ≤ n) (hr : okNext r = true) :
+    parseDeclBody n d.key (d.val.toks ++ annToks d.ann ++ r) = .ok (d, r) := by
+  obtain ⟨key, val, ann⟩ := d
+  unfold parseDeclBody
+  cases val with
+  | fns f fs =>
+    simp only [CVal.toks, fnsToks, List.append_assoc] at hn ⊢
+    simp only [startsFn_fn, ↓reduceIte]
+    have hl := f.toks_length
+    have h1 : f.toks.length ≤ n + 2 := by simp at hn; omega
+    rw [parseFn_complete f _ n h1]
+    have h2 : (fnsTail fs).length < n := by simp at hn; omega
+    simp only [parseFnsTail_complete fs _ n h2 (annToks_append_notAnd ann hr)]
+    have h3 : (annToks ann).length < n + 2 := by simp at hn; omega
+    simp only [parseAnn_complete ann r n h3 (okNext_notLbrack hr)]
+  | lits a ls =>
+    simp only [CVal.toks, litsToks, List.append_assoc, List.cons_append] at hn ⊢
+    simp only [startsFn_lits a ls ann hr, Bool.false_eq_true, ↓reduceIte, litOfTok_tok]
+    have h2 : (litsTail ls).length < n := by simp at hn; omega
+    simp only [parseLitsTail_complete ls _ n h2 (annToks_append_notComma ann hr)]
+    have h3 : (annToks ann).length < n + 2 := by simp at hn; omega
+    simp only [parseAnn_complete ann r n h3 (okNext_notLbrack hr)]
+
+theorem parseOut_complete (o : COut) (r : List Tok) (n : Nat) (hn : o.toks.length ≤ n + 2)
+    (hr : okNext r = true) : parseOut n (o.toks ++ r) = .ok (o, r) := by
+  unfold parseOut
+  cases o with
+  | fn f =>
+    simp only [COut.toks] at hn ⊢
+    simp only [startsFn_fn, ↓reduceIte, parseFn_complete f r n hn]
+  | nonId s => simp [COut.toks, startsFn]
+  | id s =>
+    rcases r with _ | ⟨t, r'⟩
+    · simp [COut.toks, startsFn]
+    · cases t <;> simp_all [COut.toks, startsFn, okNext]
+
+theorem parseRule_complete (rl : CRule) (r : List Tok) (n : Nat) (hn : rl.toks.length ≤ n)
+    (hr : okNext r = true) : parseRule n (rl.toks ++ r) = .ok (rl, r) := by
+  obtain ⟨f, fs, o⟩ := rl
+  unfold parseRule
+  simp only [CRule.toks, fnsToks, List.append_assoc, List.cons_append] at hn ⊢
+  have hl := f.toks_length
+  have h1 : f.toks.length ≤ n + 2 := by simp at hn; omega
+  rw [parseFn_complete f _ n h1]
+  have h2 : (fnsTail fs).length < n := by simp at hn; omega
+  simp only [parseFnsTail_complete fs (.arrow :: (o.toks ++ r)) n h2 (by simp [notAnd])]
+  have h3 : o.toks.length ≤ n + 2 := by simp at hn; omega
+  simp only [parseOut_complete o r n h3 hr]
+
+/-- what may follow a list of items: end of input or the closing brace -/
+def closes : List Tok → Bool
+  | [] => true
+  | .rbrace :: _ => true
+  | _ => false
+
+theorem closes_itemKind {R : List Tok} (h : closes R = true) : itemKind R = .none := by
+  rcases R with _ | ⟨t, r'⟩
+  · rfl
+  · cases t <;> simp_all [closes, itemKind]
+
+theorem closes_okNext {R : List Tok} (h : closes R = true) : okNext R = true := by
+  rcases R with _ | ⟨t, r'⟩
+  · rfl
+  · cases t <;> simp_all [closes, okNext]
+
+theorem okNext_fn (f : CFn) (r : List Tok) : okNext (f.toks ++ r) = true := by
+  obtain ⟨neg, name, params⟩ := f
+  cases neg <;> simp [CFn.toks, okNext]
+
+theorem okNext_items (items : Items) {R : List Tok} (h : closes R = true) :
+    okNext (items.toks ++ R) = true := by
+  cases items with
+  | nil => simpa [Items.toks] using closes_okNext h
+  | rule r rest =>
+    obtain ⟨f, fs, o⟩ := r
+    simp only [Items.toks, CRule.toks, fnsToks, List.append_assoc]
+    exact okNext_fn f _
+  | decl d rest => simp [Items.toks, CDecl.toks, okNext]
+  | lit l rest => cases l <;> simp [Items.toks, Lit.tok, okNext]
+  | sec n body rest => simp [Items.toks, okNext]
+
+theorem itemKind_rule (rl : CRule) (r : List Tok) : itemKind (rl.toks ++ r) = .rule := by
+  obtain ⟨⟨neg, name, params⟩, fs, o⟩ := rl
+  cases neg <;> simp [CRule.toks, fnsToks, CFn.toks, itemKind]
+
+theorem itemKind_litTok (l : Lit) {r : List Tok} (h : okNext r = true) :
+    itemKind (l.tok :: r) = .lit l := by
+  cases l with
+  | nonId s => simp [Lit.tok, itemKind]
+  | quote q s => simp [Lit.tok, itemKind]
+  | id s =>
+    rcases r with _ | ⟨t, r'⟩
+    · simp [Lit.tok, itemKind]
+    · cases t <;> simp_all [Lit.tok, itemKind, okNext]
+
+theorem CRule.toks_length_pos (r : CRule) : 1 ≤ r.toks.length := by
+  have := r.first.toks_length
+  simp [CRule.toks, fnsToks]; omega
+
+theorem parseItems_complete : ∀ (items : Items) (R : List Tok) (n : Nat),
+    items.toks.length < n → closes R = true →
+    parseItems n (items.toks ++ R) = .ok (items, R) := by
+  intro items
+  induction items with
+  | nil =>
+    intro R n hn hR
+    cases n with
+    | zero => simp at hn
+    | succ n =>
+      unfold parseItems
+      simp [Items.toks, closes_itemKind hR]
+  | rule rl rest ih =>
+    intro R n hn hR
+    cases n with
+    | zero => simp at hn
+    | succ n =>
+      unfold parseItems
+      simp only [Items.toks, List.append_assoc] at hn ⊢
+      rw [itemKind_rule]
+      have hpos := rl.toks_length_pos
+      have h1 : rl.toks.length ≤ n := by simp at hn; omega
+      simp only [parseRule_complete rl _ n h1 (okNext_items rest hR)]
+      have h2 : rest.toks.length < n := by simp at hn; omega
+      simp only [ih R n h2 hR]
+  | decl d rest ih =>
+    intro R n hn hR
+    cases n with
+    | zero => simp at hn
+    | succ n =>
+      unfold parseItems
+      simp only [Items.toks, CDecl.toks, List.append_assoc, List.cons_append] at hn ⊢
+      simp only [itemKind, List.drop_succ_cons, List.drop_zero]
+      have h1 : (d.val.toks ++ annToks d.ann).length ≤ n := by simp at hn ⊢; omega
+      have := parseDeclBody_complete d (rest.toks ++ R) n h1 (okNext_items rest hR)
+      simp only [List.append_assoc] at this
+      simp only [this]
+      have h2 : rest.toks.length < n := by simp at hn; omega
+      simp only [ih R n h2 hR]
+  | lit l rest ih =>
+    intro R n hn hR
+    cases n with
+    | zero => simp at hn
+    | succ n =>
+      unfold parseItems
+      simp only [Items.toks, List.cons_append] at hn ⊢
+      rw [itemKind_litTok l (okNext_items rest hR)]
+      simp only [List.drop_succ_cons, List.drop_zero]
+      have h2 : rest.toks.length < n := by simp at hn; omega
+      simp only [ih R n h2 hR]
+  | sec name body rest ihb ihr =>
+    intro R n hn hR
+    cases n with
+    | zero => simp at hn
+    | succ n =>
+      unfold parseItems
+      simp only [Items.toks, List.append_assoc, List.cons_append] at hn ⊢
+      simp only [itemKind, List.drop_succ_cons, List.drop_zero]
+      have h1 : body.toks.length < n := by simp at hn; omega
+      simp only [ihb (.rbrace :: (rest.toks ++ R)) n h1 (by simp [closes])]
+      have h2 : rest.toks.length < n := by simp at hn; omega
+      simp only [ihr R n h2 hR]
+
+theorem parseProg_complete : ∀ (p : Prog) (n : Nat), (progToks p).length < n →
+    parseProg n (progToks p) = .ok p := by
+  intro p
+  induction p with
+  | nil =>
+    intro n hn
+    cases n with
+    | zero => simp at hn
+    | succ n => simp [parseProg, progToks]
+  | cons s ps ih =>
+    intro n hn
+    obtain ⟨name, body⟩ := s
+    cases n with
+    | zero => simp at hn
+    | succ n =>
+      unfold parseProg
+      simp only [progToks] at hn ⊢
+      have h1 : body.toks.length < n := by simp at hn; omega
+      simp only [parseItems_complete body (.rbrace :: progToks ps) n h1 (by simp [closes])]
+      have h2 : (progToks ps).length < n := by simp at hn; omega
+      simp only [ih n h2]
+
+/-- **Token level, both directions.** -/
+theorem parseToks_complete (p : Prog) : parseToks (progToks p) = .ok p :=
+  parseProg_complete p _ (Nat.lt_succ_self _)
+
+theorem parseToks_sound {ts : List Tok} {p : Prog} (h : parseToks ts = .ok p) : progToks p = ts :=
+  (parseProg_sound _ h).symm
+
 end DaeVerif.C17
